@@ -50,6 +50,10 @@ CHECKS = {
   technique='property-based testing (Hypothesis) against a pure-python bottom-up hydrostatic integration and shape/ordering predicates over every exposed and stored per-layer quantity',
   text='Generated planets, 1-200 layers, log-spaced or arbitrary decreasing levels, arbitrary temperature and molecular-weight arrays (function level) and whole models on simple or array pressure profiles (model level); altitude, thickness, gravity, scale height and density compared with the reference; every per-layer array and every entry of generate_profiles() must have exactly one entry per layer; exploration level.',
   note='Physical constants typed in; condition-aware tolerance for nearly equal levels; array profiles judged when the derived levels decrease strictly.'),
+ 'C12': dict(
+  technique='property-based testing (Hypothesis) with validity predicates (one finite positive value per layer, inside the control range, constant for equal controls), a closed-form reference for the Guillot profile, and negative classes that must be rejected as an invalid model',
+  text='Generated layer counts, pressure grids and parameters for all built-in temperature profiles (isothermal, N-point with smoothing and slope limit, array with/without pressure points, text file, layer-correlated, Guillot), including the four rejected classes; exploration level.',
+  note='Guillot reference uses E2 via exp1 (not the expn call of the code) and typed constants; smoothing window 0-100 percent.'),
 }
 
 NOT_APPLICABLE = {}
